@@ -42,7 +42,10 @@ RULE = ("relational cases: splitters (crossfold/sample, records/users, every bra
         "with seeded random hold-outs, negative sampling (uniform/popular, with re-sampling), the three stochastic rankers with fixed seeds, "
         "trainings of every LensKit-native model and of seeded pipelines, each run twice with the same seed and once with another seed; "
         "user-derived rankers under permuted and interleaved request sequences; trainings on a 230-user dataset under LK_NUM_THREADS / "
-        "LK_NUM_BACKEND_THREADS in {1,2,8} in separate processes and item-kNN block sizes {250,64,7,1}.  non-trivial = the operation consumed "
+        "LK_NUM_BACKEND_THREADS in {1,2,8} in separate processes and item-kNN block sizes {250,64,7,1}; a batch of seeded operations whose "
+        "seed derivation or bookkeeping involves names / text ids / sets / dicts (seeds handed to named probe components by Pipeline.train, models "
+        "trained through standard pipelines and directly on text-id data, user-derived rankers with text user ids, splitters, negative sampling) "
+        "in separate interpreter processes with PYTHONHASHSEED in {0, 1, random}.  non-trivial = the operation consumed "
         "randomness and another seed gave a different result (splits/sampling/rankers/seeded trainings), or at least two configurations / "
         "request orders were compared; distinct = by hash of the case")
 
@@ -188,6 +191,28 @@ def gen_threads_case(rng, nconf):
             "configs": THREAD_CONFIGS[:nconf]}
 
 
+HASHSEEDS = ["0", "1", "random", "4242"]
+
+
+def gen_hashseed_case(rng, nproc):
+    spec = L.gen_dataset(rng, 0)
+    spec["timestamps"] = True
+    spec["string_ids"] = True
+    words = ["scorer", "ranker", "history", "candidates", "fallback", "popular", "bias", "als-model", "x", "neighbours", "Z9", "rerank"]
+    pipelines = [rng.sample(words, rng.randint(2, 5)) for _ in range(rng.randint(3, 5))]
+    users = sorted({r[0] for r in spec["rows"]})
+    return {"type": "hashseed", "dataset": spec, "seed": rng.randint(1, 10**6), "hashseeds": HASHSEEDS[:nproc],
+            "pipelines": pipelines, "seed_kinds": ["int", "seedseq", "intlist"],
+            "std_pipelines": [["als-topn", "als", {"embedding_size": 3, "epochs": 2}, "topn"],
+                              ["ials-predict", "ials", {"embedding_size": 3, "epochs": 1}, "predict"],
+                              ["flexi-topn", "flexi", {"embedding_size": 2, "epochs": 1, "batch_size": 16}, "topn"]],
+            "models": [["als", "als", {"embedding_size": 3, "epochs": 2}], ["funk", "funk", {"features": 2, "epochs": 2}],
+                       ["svd", "svd", {"embedding_size": 2, "n_iter": 2}], ["flexe", "flexe", {"embedding_size": 2, "epochs": 1, "batch_size": 16}],
+                       ["iknn", "iknn", {"max_nbrs": 3}], ["uknn", "uknn", {"max_nbrs": 3}]],
+            "rank_users": ["u%d" % u for u in rng.sample(users, min(4, len(users)))] + ["alice", "bob"],
+            "rank_items": rng.sample(list(range(100, 130)), 9)}
+
+
 def gen_api_case(rng):
     return {"type": "api", "seed_kind": rng.choice(["int", "seedseq", "intlist", "none"]), "seed": rng.randint(1, 10**6),
             "global": rng.choice([None, rng.randint(1, 10**6)]), "key": rng.choice([5, "alice", "u17", 2**40 + 3])}
@@ -198,6 +223,8 @@ def gen_cases(rng, tier):
     out = []
     for j in range(2 if quick else 4):
         out.append(gen_threads_case(rng.fork(("threads", j)), 3 if quick else 5))
+    for j in range(1 if quick else 4):
+        out.append(gen_hashseed_case(rng.fork(("hashseed", j)), 3 if quick else 4))
     n = {"split": 150, "neg": 40, "ranker": 80, "train": 90, "api": 20} if quick else {"split": 1500, "neg": 400, "ranker": 900, "train": 500, "api": 100}
     gens = {"split": gen_split_case, "neg": gen_neg_case, "ranker": gen_ranker_case, "train": gen_train_case, "api": gen_api_case}
     for k, cnt in n.items():
@@ -397,6 +424,22 @@ def run_threads(case):
     return {"runs": res}
 
 
+def run_hashseed(case):
+    """The same batch of seeded operations in separate interpreter processes that differ only in PYTHONHASHSEED."""
+    job = json.dumps({**{k: v for k, v in case.items() if k not in ("type", "hashseeds")}, "mode": "hashseed"})
+
+    def one(hs):
+        env = common.base_env(PYTHONHASHSEED=hs, TQDM_DISABLE=1, VERIF_NO_SYNC=1)
+        p = subprocess.run([common.PY, "-W", "ignore", str(common.VERIF / "harness" / "c11_worker.py")], input=job, capture_output=True,
+                           text=True, env=env, timeout=900)
+        if p.returncode != 0:
+            raise RuntimeError(f"worker PYTHONHASHSEED={hs} failed: {p.stderr[-800:]}")
+        return json.loads(p.stdout[p.stdout.index("{"):])
+    with ThreadPoolExecutor(len(case["hashseeds"])) as ex:
+        res = list(ex.map(one, case["hashseeds"]))
+    return {"runs": res, "entry": "Pipeline.train"}
+
+
 def run_api(case):
     L.setup()
     import numpy as np
@@ -429,7 +472,8 @@ def run_api(case):
 
 def run_impl(case):
     L.setup()
-    return {"split": run_split, "neg": run_neg, "ranker": run_ranker, "train": run_train, "threads": run_threads, "api": run_api}[case["type"]](case)
+    return {"split": run_split, "neg": run_neg, "ranker": run_ranker, "train": run_train, "threads": run_threads, "api": run_api,
+            "hashseed": run_hashseed}[case["type"]](case)
 
 
 # ---------------------------------------------------------------------------------------------
@@ -494,6 +538,14 @@ def coq_term(case, obs):
         for r in obs["runs"]:
             for k in ik[1:]:
                 terms.append(same_store(r[ik[0]], r[k]))
+        return " && ".join(f"({x})" for x in terms)
+    if t == "hashseed":
+        base = obs["runs"][0]
+        labels = sorted(k for k in base if not k.startswith("_"))
+        terms = [entry_closed("Pipeline.train")]
+        for r in obs["runs"][1:]:
+            for lb in labels:
+                terms.append(f"zlist_eqb {zl(base[lb])} {zl(r.get(lb, [-1]))}")
         return " && ".join(f"({x})" for x in terms)
     if t == "api":
         want_global = "UseGlobal" if obs["used_global"] else "FromArgument"
@@ -561,6 +613,14 @@ def oracle(case, obs):
             for k in ik[1:]:
                 if r[k] != r[ik[0]]:
                     v.append(("block-size-dependent:iknn", f"item-kNN model with {k} differs from {ik[0]}"))
+    elif t == "hashseed":
+        base = obs["runs"][0]
+        for hs, r in zip(case["hashseeds"][1:], obs["runs"][1:]):
+            for lb in sorted(k for k in base if not k.startswith("_")):
+                if base[lb] != r.get(lb):
+                    kind = lb.split(":")[0] + (":" + lb.split(":")[1] if lb.startswith(("split", "ranker")) else "")
+                    v.append((f"process-dependent:{kind}", f"{lb}: same program, same seed {case['seed']}, PYTHONHASHSEED={hs} vs {case['hashseeds'][0]} "
+                              "gave different results (seed material or bookkeeping depends on the interpreter's string hashing)"))
     elif t == "api":
         if case["seed_kind"] != "none":
             if obs["used_global"]:
@@ -591,6 +651,8 @@ def nontrivial(case, obs):
         return (obs["orders"][0] if case["derived"] else obs["a"]) != obs["other"]
     if t == "threads":
         return len(obs["runs"]) >= 2
+    if t == "hashseed":
+        return len({tuple(r["_hashseed"]) for r in obs["runs"]}) >= 2      # the processes really hashed strings differently
     return case["seed_kind"] != "none"
 
 
@@ -624,6 +686,11 @@ def counters(case, obs):
     elif t == "threads":
         for cfg, r in zip(case["configs"], obs["runs"]):
             yield f"threads={cfg[0]}/backend={cfg[1]}/torch={r['_config']['torch_threads']}/interop={r['_config']['torch_interop']}"
+    elif t == "hashseed":
+        for hs in case["hashseeds"]:
+            yield "PYTHONHASHSEED=" + hs
+        yield f"hashseed-operations={len([k for k in obs['runs'][0] if not k.startswith('_')])}"
+        yield f"hashseed-distinct-string-hashes={len({tuple(r['_hashseed']) for r in obs['runs']})}"
     else:
         yield f"api={case['seed_kind']}/global={'set' if case['global'] is not None else 'unset'}/used_global={obs['used_global']}"
 
@@ -633,11 +700,13 @@ def sample(case, obs):
         return {"case": {"type": "threads", "configs": case["configs"], "models": [m[0] for m in case["models"]], "rows": len(case["dataset"]["rows"])},
                 "observation": {"configs": [r["_config"] for r in obs["runs"]], "als": [r["als"] for r in obs["runs"]]}}
     small = {k: v for k, v in case.items() if k != "dataset"}
+    if case["type"] == "hashseed":
+        return {"case": small, "observation": {"labels": sorted(obs["runs"][0]), "string_hash_per_process": [r["_hashseed"][1] for r in obs["runs"]]}}
     return {"case": small, "observation": {k: v for k, v in obs.items()}}
 
 
 def shrink(case, fails):
-    if "dataset" not in case or case["type"] == "threads":
+    if "dataset" not in case or case["type"] in ("threads", "hashseed"):
         return case
     c = dict(case)
 
